@@ -454,6 +454,176 @@ fn climb(start: i64, target: i64) -> Vec<i32> {
     v
 }
 
+// ---------------------------------------------------------------- malformed offset arrays under glyph keyed patches
+
+/// gvar with `offsets.len() - 1` glyphs, no shared tuples, `data_len` bytes of per-glyph data; offsets are
+/// written verbatim (short form: value / 2 as u16)
+pub fn gvar_table(offsets: &[u32], long: bool, data_len: usize) -> Vec<u8> {
+    let n = offsets.len() - 1;
+    let mut b: Vec<u8> = vec![0, 1, 0, 0, 0, 1, 0, 0];
+    let array_len = offsets.len() * if long { 4 } else { 2 };
+    let data_off = (20 + array_len) as u32;
+    b.extend_from_slice(&data_off.to_be_bytes()); // shared tuples offset (none)
+    b.extend_from_slice(&(n as u16).to_be_bytes());
+    b.extend_from_slice(&(long as u16).to_be_bytes());
+    b.extend_from_slice(&data_off.to_be_bytes());
+    for o in offsets {
+        if long {
+            b.extend_from_slice(&o.to_be_bytes());
+        } else {
+            b.extend_from_slice(&((o / 2) as u16).to_be_bytes());
+        }
+    }
+    b.extend((0..data_len).map(|i| b'a' + (i % 26) as u8));
+    b
+}
+
+/// `base_tables` with an explicit loca
+fn base_with_loca(n: u16, long: bool, offsets: &[u32]) -> Vec<(Tag, Vec<u8>)> {
+    let mut t = base_tables(n, long);
+    let mut loca = vec![];
+    for o in offsets {
+        if long {
+            loca.extend_from_slice(&o.to_be_bytes());
+        } else {
+            loca.extend_from_slice(&((o / 2) as u16).to_be_bytes());
+        }
+    }
+    for (tag, d) in t.iter_mut() {
+        if *tag == Tag::new(b"loca") {
+            *d = loca.clone();
+        }
+    }
+    t
+}
+
+/// offset arrays that are malformed in the INTERIOR of runs as well as at their ends; `n` glyphs of 2 bytes,
+/// `top` = the largest representable offset
+fn offset_patterns(n: usize, top: u32, data_len: u32) -> Vec<(String, Vec<u32>)> {
+    let asc: Vec<u32> = (0..=n as u32).map(|i| 2 * i).collect();
+    let mut v = vec![("ascending".to_string(), asc.clone())];
+    for k in [1usize, 4, 5, n / 2, n - 1, n] {
+        for (name, val) in [("zero", 0u32), ("below-run-start", asc[k.saturating_sub(2)].saturating_sub(2)), ("beyond-data", data_len + 100), ("top", top), ("top-2", top - 2)] {
+            let mut o = asc.clone();
+            o[k] = val;
+            v.push((format!("offset[{k}]={name}({val})"), o));
+        }
+    }
+    // two interior offsets swapped, a descending interior run, everything equal, everything top
+    let mut o = asc.clone();
+    o.swap(3, 6);
+    v.push(("swap[3,6]".into(), o));
+    let mut o = asc.clone();
+    for k in 3..8.min(n) {
+        o[k] = asc[10 - k];
+    }
+    v.push(("descending[3..8]".into(), o));
+    v.push(("all-equal".into(), vec![4; n + 1]));
+    v.push(("all-top".into(), vec![top; n + 1]));
+    v.push(("descending".into(), asc.iter().rev().copied().collect()));
+    // the documented shape: ends of the copied block ordered, interior below the block start
+    v.push(("interior-dip".into(), vec![0, 2, 2, 4, 0, 4, 4, 4, 4, 10, 10, 10, 10, 10, 10, 12][..n + 1].to_vec()));
+    v
+}
+
+pub fn offset_array_family(ex: &mut Explorer, thorough: bool) {
+    let n = 15usize;
+    let map = f2_table(&COMPAT, 3, &[F2Entry { delta: None, format: Some(3), ignored: false, codepoints: true }], None);
+    // patches: glyph sets that are the first / last / no glyph of the runs between them
+    let gid_sets: Vec<Vec<u32>> = vec![vec![2, 7, 8], vec![0], vec![14], vec![4], vec![3, 6], vec![0, 14], vec![1, 2, 3, 4, 5, 6, 7, 8, 9, 10, 11, 12, 13], vec![]];
+    let mk_patch = |tables: &[[u8; 4]], gids: &Vec<u32>| {
+        let data: Vec<Vec<u8>> = (0..gids.len() * tables.len()).map(|i| vec![b'A' + i as u8; 2 + 2 * (i % 3)]).collect();
+        gk_patch(&COMPAT, &GkSpec { wide: false, declared_glyph_count: gids.len() as u32, gids: gids.clone(), tables: tables.to_vec(), offsets: None, data, max_len: None })
+    };
+    let mut n_cases = 0u64;
+    // --- gvar (short / long) and loca (short / long)
+    for long in [false, true] {
+        let top: u32 = if long { u32::MAX } else { 0xFFFF * 2 };
+        let data_len = 2 * n as u32 + 8;
+        for (pn, offs) in offset_patterns(n, top, data_len) {
+            if !thorough && pn.contains("top-2") {
+                continue;
+            }
+            // gvar malformed, loca fine; loca malformed, no gvar; both
+            let gvar = gvar_table(&offs, long, data_len as usize);
+            let good_gvar = gvar_table(&(0..=n as u32).map(|i| 2 * i).collect::<Vec<_>>(), long, data_len as usize);
+            let mut fonts: Vec<(&str, Vec<u8>)> = vec![];
+            let mut t = base_tables(n as u16, long);
+            t.push((Tag::new(b"gvar"), gvar.clone()));
+            fonts.push(("gvar", assemble(&map, None, &t)));
+            let mut t = base_with_loca(n as u16, long, &offs);
+            t.push((Tag::new(b"gvar"), good_gvar));
+            fonts.push(("loca", assemble(&map, None, &t)));
+            for (which, font) in &fonts {
+                for gids in &gid_sets {
+                    for tables in [vec![*b"gvar"], vec![*b"glyf"], vec![*b"glyf", *b"gvar"]] {
+                        if !thorough && tables.len() == 2 && gids.len() != 3 {
+                            continue;
+                        }
+                        let patch = mk_patch(&tables, gids);
+                        n_cases += 1;
+                        let label = || {
+                            format!(
+                                "ift=offset-arrays malformed={which} long={long} pattern={pn} offsets={offs:?} patch-tables={:?} patch-gids={gids:?}",
+                                tables.iter().map(|t| String::from_utf8_lossy(t).to_string()).collect::<Vec<_>>()
+                            )
+                        };
+                        apply_patch(ex, &label, font, &patch);
+                    }
+                }
+            }
+        }
+    }
+    // --- CFF / CFF2 charstrings INDEX of the test fonts, offsets mutated in place
+    use font_test_data::ift as t;
+    for (tag, font_bytes, cs_off, count_width) in [(*b"CFF ", t::CFF_FONT, t::CFF_FONT_CHARSTRINGS_OFFSET, 2usize), (*b"CFF2", t::CFF2_FONT, t::CFF2_FONT_CHARSTRINGS_OFFSET, 4usize)] {
+        let Ok(src) = FontRef::new(font_bytes) else { continue };
+        let mut ift = t::format2_with_one_charstrings_offset();
+        ift.write_at("charstrings_offset", cs_off);
+        if &tag == b"CFF2" {
+            ift.write_at("field_flags", 0b0000_0010u8);
+        }
+        ift.write_at("compat_id[0]", 1u32);
+        let ift_bytes = {
+            // compat id 1,2,3,4 = COMPAT
+            ift.as_slice().to_vec()
+        };
+        let tables: Vec<(Tag, Vec<u8>)> = src.table_directory.table_records().iter().filter_map(|r| src.table_data(r.tag()).map(|d| (r.tag(), d.as_bytes().to_vec()))).filter(|(t, _)| *t != Tag::new(b"IFT ")).collect();
+        let base_font = assemble(&ift_bytes, None, &tables);
+        let Ok(f) = FontRef::new(&base_font) else { continue };
+        let Some(rec) = f.table_directory.table_records().iter().find(|r| r.tag() == Tag::new(&tag)) else { continue };
+        let index_pos = rec.offset() as usize + cs_off as usize;
+        let count = if count_width == 2 { u16::from_be_bytes([base_font[index_pos], base_font[index_pos + 1]]) as usize } else { u32::from_be_bytes([base_font[index_pos], base_font[index_pos + 1], base_font[index_pos + 2], base_font[index_pos + 3]]) as usize };
+        let off_size = base_font[index_pos + count_width] as usize;
+        if count < 8 || !(1..=4).contains(&off_size) {
+            continue;
+        }
+        let arr = index_pos + count_width + 1;
+        let top: u64 = (1u64 << (8 * off_size)) - 1;
+        let read = |b: &[u8], k: usize| -> u64 { b[arr + k * off_size..arr + (k + 1) * off_size].iter().fold(0u64, |a, x| (a << 8) | *x as u64) };
+        for k in [0usize, 1, 5, count / 2, count - 1, count] {
+            for (vn, val) in [("zero", 0u64), ("one", 1), ("prev-minus", read(&base_font, k.saturating_sub(2)).saturating_sub(1)), ("top", top), ("top-1", top - 1), ("next-plus", read(&base_font, (k + 1).min(count)) + 1)] {
+                let mut fb = base_font.clone();
+                let mut v = val.min(top);
+                for j in (0..off_size).rev() {
+                    fb[arr + k * off_size + j] = (v & 0xFF) as u8;
+                    v >>= 8;
+                }
+                for gids in [vec![1u32, 38, 47, 59], vec![0], vec![(count - 1) as u32], vec![k as u32], vec![k.saturating_sub(1) as u32, (k + 1).min(count - 1) as u32], vec![]] {
+                    let mut g = gids.clone();
+                    g.sort();
+                    g.dedup();
+                    let patch = mk_patch(&[tag], &g);
+                    n_cases += 1;
+                    let label = || format!("ift=offset-arrays malformed={} charstrings-index count={count} offSize={off_size} offset[{k}]={vn}({val}) patch-gids={g:?}", String::from_utf8_lossy(&tag));
+                    apply_patch(ex, &label, &fb, &patch);
+                }
+            }
+        }
+    }
+    ex.notes.push(format!("IFT: {n_cases} glyph keyed applications against malformed loca / gvar / charstrings offset arrays"));
+}
+
 pub fn base_fonts_for_fields() -> Vec<(String, Vec<u8>)> {
     use font_test_data::ift as t;
     let base = base_tables(15, true);
@@ -652,6 +822,7 @@ pub fn run(cfg: &Config, ex: &mut Explorer) {
             patches.push((format!("{n} field[{f}]={v:#x}"), b));
         }
     }
+    offset_array_family(ex, thorough);
     let n_patches = patches.len();
     for (fname, fbytes) in &fonts {
         for (pn, pb) in &patches {
